@@ -94,7 +94,7 @@ Example leaf_applies :
              CompFacts.expr_ok (mkCS [] [] [va; vb] 2) s' [va; vb] 1 2 (ENum 5).
 Proof.
   eexists. split; [vm_compute; reflexivity|].
-  eapply CompFacts.compileExpr_leaf_ok with (ec := ecnone 0) (inc := 1); try reflexivity; vm_compute; try lia; try discriminate.
+  eapply CompFacts.compileExpr_ok with (ec := ecnone 0) (inc := 1); try reflexivity; vm_compute; try lia; try discriminate.
 Qed.
 
 (* ---- the reference half of frag_compile_correct applied (coq/CC/FragEvalFacts.v) ---- *)
